@@ -16,7 +16,17 @@ evars == <<hub, xw, g, hist, bad, pick, cnt, kx>>
 \* scripts/cfg_evm.json: a batch lives 60 external blocks (the simulated chain mines a block per transaction)
 EvmCfg == [DefaultCfg EXCEPT !.target_ms = 1200000]
 
-C == "ethereum"
+CONSTANT EvmChain     \* the chain backed by the real contract: "ethereum" or "bsc"
+C == EvmChain
+EvmToks == IF C = "ethereum" THEN {"t1", "t4"} ELSE {"t3", "t6"}
+\* the genesis of the evm family registers the validators' keys for the chain of the contract
+KeysAt(h0, vs) ==
+    LET ext == [v1 |-> "e1", v2 |-> "e2", v3 |-> "e3"]
+        orc == [v1 |-> "o1", v2 |-> "o2", v3 |-> "o3"]
+        clean == [h0 EXCEPT !.ch["ethereum"] = EmptyChain]
+    IN [clean EXCEPT !.ch[C] = [EmptyChain EXCEPT !.ve = [v \in vs |-> ext[v]],
+                                                  !.ov = [o \in {orc[v] : v \in vs} |-> CHOOSE v \in vs : orc[v] = o],
+                                                  !.eo = [e \in {ext[v] : v \in vs} |-> orc[CHOOSE v \in vs : ext[v] = e]]]]
 Thr == <<43690, 43690>>          \* 2863311530 = two thirds of 2^32
 
 \* the constructor's ValsetUpdatedEvent (valset nonce 0, event nonce 1) is the first event validators report
@@ -26,9 +36,9 @@ InitEvmWith(h0) ==
     /\ xw = [XwInit(h0) EXCEPT ![C].log = <<Ev0Of(h0)>>, ![C].h = 4]
     /\ kx = [blk |-> 4, vsn |-> 0, evn |-> 1, thr |-> Thr, lbn |-> <<>>, cust |-> <<>>,
              set |-> [n |-> 0, m |-> SortedMembers(Cfg(h0), CurrentSigners(h0, C))]]
-InitEvm == InitEvmWith(InitHub)
+InitEvm == InitEvmWith(KeysAt(InitHub, Vals))
 \* scripts/cfg_evm2.json: v3 is bonded but has registered no key for the chain (it still votes on events)
-InitHub2 == [InitHub EXCEPT !.ch[C].ve = [v1 |-> "e1", v2 |-> "e2"], !.ch[C].ov = [o1 |-> "v1", o2 |-> "v2"], !.ch[C].eo = [e1 |-> "o1", e2 |-> "o2"]]
+InitHub2 == KeysAt(InitHub, {"v1", "v2"})
 InitEvm2 == InitEvmWith(InitHub2)
 
 \* an action of the external chain: recorded in the script, no hub step
@@ -41,7 +51,7 @@ EvmDo(act, kx2, xw2) ==
 Emit1(ev) == [xw EXCEPT ![C].log = Append(@, ev), ![C].h = ev.eh]
 
 EvmDeposit ==
-    \E tok \in {"t1", "t4"}, amt \in {500, 70}, fee \in {0, 5} :
+    \E tok \in EvmToks, amt \in {500, 70}, fee \in {0, 5} :
        LET blk == kx.blk + 3        \* wrap, approve, transferToChain: one block each
            ev  == [t |-> "Deposit", n |-> kx.evn + 1, tok |-> tok, amt |-> amt, fee |-> fee, snd |-> "e7", rch |-> "hub", rcv |-> "a3",
                    eh |-> blk, txh |-> "x" \o ToString(cnt + 1)]
